@@ -118,7 +118,7 @@ KP_TB = TB_COMMON + [
 
 PB_TB = TB_COMMON + [
     "tools/extract: gfeT4T7prefix, serverTimingKey, the retry delays, the 1.5 factor, the probe-type table and the flag regexes with the flags they are applied to are regenerated from the Go sources",
-    "floating point: the backoff theorems hold for every arithmetic satisfying `Laws` (total order, monotone conversions, exact integers up to 2^53, x*1.5 >= x for x >= 0) - IEEE-754 binary64 round-to-nearest is assumed to satisfy them; the executable F53 model (53-bit round-to-nearest-even dyadics) is compared bit-for-bit with Go's float64 on every run",
+    "floating point: the backoff theorems hold for every arithmetic satisfying `Laws` (total order, monotone conversions, exact integers up to 2^53, x*1.5 >= x for x >= 0); the executable F53 model (53-bit round-to-nearest-even dyadics) is PROVED to satisfy them (Proofs/F53: f53_laws, and backoffF53_bounds for the function the driver runs) and is compared bit-for-bit with Go's float64 on every run - that Go's float64 is IEEE-754 binary64 round-to-nearest-even is what remains assumed, sampled by that comparison",
     "modelled, not verified: strconv.ParseInt(_,10,64), strings.HasPrefix/TrimPrefix, regexp for the fragment ^[class]*$, fmt.Sprintf(%s), crypto/sha256 (the payload hash is re-computed by the harness with sha256.Sum256)",
     "ASCII inputs (Go strings are bytes; the model uses characters)",
 ]
@@ -201,8 +201,10 @@ PROPS = {
                          ["backoff_ge_base", "backoff_le_max", "backoff_mono_retries", "loop_succ", "t4t7_header_first",
                           "t4t7_trailer_fallback", "t4t7_absent", "t4t7_first_entry", "t4t7_no_entry", "wrap64_exact",
                           "databaseURI_segments", "instanceURI_segments", "no_slash_of_match", "generated_regexes_exclude_slash",
-                          "generated_regexes_cover", "accepted_probe_type_parses"]],
-            "leanchecker": ["GcpVerif.Proofs.Prober"],
+                          "generated_regexes_cover", "accepted_probe_type_parses"]] +
+                        [("GcpVerif.Proofs.F53", "GcpVerif.Prober." + n) for n in
+                         ["f53_laws", "backoffF53_eq", "backoffF53_bounds", "rnd_mono", "rnd_three", "norm_val", "leQ_trans"]],
+            "leanchecker": ["GcpVerif.Proofs.Prober", "GcpVerif.Proofs.F53"],
             "trusted_base": PB_TB,
             "assumptions": ["backoff: 0 <= base <= max <= 2^53 ns (known findings K3/K4 outside)", "t4t7 value exact for |ms| <= 9223372036854 (K5)"]},
     "C11": {"harnesses": ["kp"], "lake_targets": ["GcpVerif"],
